@@ -20,7 +20,7 @@ CHECKS = {
         technique="translation validation: Lean 4 kernel-checked equivalence checker (check_sound) fed with the real compiler's output vs the Lean source semantics, on generated programs",
         text="Every generated program is compiled by the real compiler and each routine is validated against the Lean small-step source semantics on the Lean SSB machine by a checker whose soundness (equal operation/test traces for every outcome of every test, halting preserved) is a kernel-checked theorem over all transition systems and relations. A verdict is per program; no forall-programs theorem about the compiler is claimed.",
         note=TV_NOTE + "The ANTLR parser and the compiler are not modelled."),
-    "C03_TEMP_DISABLED": dict(
+    "C03": dict(
         level="proof", design="4/C03",
         technique="Lean 4 theorems about a hand-written, statement-by-statement executable model of the ExplorerScript compiler after parsing "
                   "(compile handlers with the op/label counters, allocate()d header numbers, lone-jump shortcut, loop/case stacks, macro blueprints and "
